@@ -197,9 +197,14 @@ class Stats:
         if z == z:
             self.worst[key] = max(self.worst.get(key, 0.0), float(z))
 
-    def ttest(self, key, what, vals, ref, case, bias=0.0, clause='unbiased', finding=None, ref_se=0.0):
+    def ttest(self, key, what, vals, ref, case, bias=0.0, clause='unbiased', finding=None, ref_se=0.0, rare_if_mostly_zero=False):
         """mean over independent seeds vs a reference (closed form, or a reference estimate with its own s.e.)"""
         vals = np.asarray(vals, float)
+        if rare_if_mostly_zero and int(np.count_nonzero(vals)) * 2 < len(vals):
+            self.rare = getattr(self, 'rare', 0) + 1      # deep out-of-the-money: most seeds saw no pay-off at all, no usable standard error
+            if float(vals.min()) < 0.0:
+                self.ctx.violation(what + ' (negative value)', dict(case, minimum=float(vals.min())), finding=finding, clause=clause)
+            return True
         m = float(vals.mean())
         se = float(vals.std(ddof=1)) / math.sqrt(len(vals))
         k = tcrit(len(vals) - 1)
@@ -214,9 +219,17 @@ class Stats:
             return False
         return True
 
-    def ztest(self, key, what, samples, ref, case, bias=0.0, clause='unbiased', finding=None):
-        """mean of iid samples (pair averages) vs a closed form, with the run's own standard error"""
+    def ztest(self, key, what, samples, ref, case, bias=0.0, clause='unbiased', finding=None, min_nonzero=0):
+        """mean of iid samples (pair averages) vs a closed form, with the run's own standard error.  `min_nonzero`: for
+        option-type payoffs the normal approximation (and the sample standard error itself) is meaningless when almost no
+        sample is in the money; with fewer non-zero samples than this the two-sided test is NOT applied (counted as
+        rare-event), only 0 <= mean is required."""
         samples = np.asarray(samples, float)
+        if min_nonzero and int(np.count_nonzero(samples)) < min_nonzero:
+            self.rare = getattr(self, 'rare', 0) + 1
+            if float(samples.min()) < 0.0:
+                self.ctx.violation(what + ' (negative payoff sample)', dict(case, minimum=float(samples.min())), finding=finding, clause=clause)
+            return True
         m = float(samples.mean())
         se = float(samples.std(ddof=1)) / math.sqrt(len(samples))
         tol = KSE * se + bias
@@ -281,6 +294,7 @@ def _run(ctx, drivers_ok, bseeds, procs):
     P.default_time_stats(ctx, st, quick)
 
     ctx.cov['statistical_tests'] = st.n_tests
+    ctx.cov['rare_event_tests_not_applied'] = getattr(st, 'rare', 0)
     ctx.cov['worst_ratio_to_bound'] = {k: float(f'{v:.3f}') for k, v in sorted(st.worst.items())}
     ctx.assumptions += [
         'theorems are over the reals and about the hand model; IEEE rounding, fastmath and libm differences are covered only '
